@@ -3,6 +3,7 @@
   Property theorems only; helper lemmas live in Nutree/Lemmas.
 -/
 import Nutree.Model.Typed
+import Nutree.Lemmas.Typed
 namespace Nutree.C15
 open Nutree T Nutree.Typed
 
@@ -21,5 +22,174 @@ theorem hasChildren_eq (self : T) (k : Option String) : hasChildren self k = Spe
   | some k =>
     simp only [getChildren_eq, Spec.children]
     cases (Spec.byKind self.kids (some k)) <;> simp
+
+/-- `first_child(kind)`: the loop's first hit is the head of the filtered child list. -/
+theorem firstChild_eq (self : T) (k : Option String) : firstChild self k = Spec.firstChild self k :=
+  firstChild_spec self k
+
+/-- `last_child(kind)`: the backward loop's first hit is the last of the filtered child list. -/
+theorem lastChild_eq (self : T) (k : Option String) : lastChild self k = Spec.lastChild self k :=
+  lastChild_spec self k
+
+/-- `get_siblings(add_self=, any_kind=)` (no hypotheses needed). -/
+theorem siblings_eq (root self : T) (addSelf anyKind : Bool) :
+    Typed.getSiblings root self addSelf anyKind
+      = Spec.siblings (siblingsAll root self) self addSelf anyKind := by
+  cases anyKind with
+  | true => simp [Typed.getSiblings, Nutree.getSiblings, Spec.siblings, Spec.sibList]
+  | false => simpa [Typed.getSiblings] using siblings_spec (siblingsAll root self) self addSelf
+
+/-- `first_sibling(any_kind=)` (no hypotheses needed). -/
+theorem firstSibling_eq (root self : T) (anyKind : Bool) :
+    Typed.firstSibling root self anyKind = Spec.first (siblingsAll root self) self anyKind :=
+  first_spec (siblingsAll root self) self anyKind
+
+/-- `last_sibling(any_kind=)` (no hypotheses needed). -/
+theorem lastSibling_eq (root self : T) (anyKind : Bool) :
+    Typed.lastSibling root self anyKind = Spec.last (siblingsAll root self) self anyKind :=
+  last_spec (siblingsAll root self) self anyKind
+
+/-- `get_index(any_kind=)` (no hypotheses needed). -/
+theorem index_eq (root self : T) (anyKind : Bool) :
+    Typed.getIndex root self anyKind = Spec.index (siblingsAll root self) self anyKind := rfl
+
+/-- `prev_sibling(any_kind=)`, sharp form: with `any_kind=True` no hypothesis at all; with
+`any_kind=False` it suffices that every sibling carrying self's identity has self's kind
+(implied by `self ∈ pc` + pairwise distinct ids, see `prev_eq`). -/
+theorem prev_eq_of_kind (root self : T) (anyKind : Bool)
+    (hk : anyKind = false → ∀ n ∈ siblingsAll root self, n.id = self.id → n.kind = self.kind) :
+    Typed.prevSibling root self anyKind = Spec.prev (siblingsAll root self) self anyKind :=
+  prev_spec_of_sel root self anyKind (sel_of_kind hk)
+
+/-- `next_sibling(any_kind=)`, sharp form (see `prev_eq_of_kind`). -/
+theorem next_eq_of_kind (root self : T) (anyKind : Bool)
+    (hk : anyKind = false → ∀ n ∈ siblingsAll root self, n.id = self.id → n.kind = self.kind) :
+    Typed.nextSibling root self anyKind = Spec.next (siblingsAll root self) self anyKind :=
+  next_spec_of_sel root self anyKind (sel_of_kind hk)
+
+/-- `prev_sibling(any_kind=)`: needs `self` among its parent's children and distinct ids
+(both are necessary for `any_kind=False`, see the counterexamples below). -/
+theorem prev_eq (root self : T) (anyKind : Bool) (hmem : self ∈ siblingsAll root self)
+    (hnd : ((siblingsAll root self).map T.id).Nodup) :
+    Typed.prevSibling root self anyKind = Spec.prev (siblingsAll root self) self anyKind :=
+  prev_eq_of_kind root self anyKind fun _ => kind_of_mem_nodup hmem hnd
+
+/-- `next_sibling(any_kind=)`: needs `self` among its parent's children and distinct ids. -/
+theorem next_eq (root self : T) (anyKind : Bool) (hmem : self ∈ siblingsAll root self)
+    (hnd : ((siblingsAll root self).map T.id).Nodup) :
+    Typed.nextSibling root self anyKind = Spec.next (siblingsAll root self) self anyKind :=
+  next_eq_of_kind root self anyKind fun _ => kind_of_mem_nodup hmem hnd
+
+/-- `is_first_sibling(any_kind=)` (no hypotheses needed). -/
+theorem isFirst_eq (root self : T) (anyKind : Bool) :
+    Typed.isFirstSibling root self anyKind = Spec.isFirst (siblingsAll root self) self anyKind := by
+  unfold Typed.isFirstSibling Spec.isFirst
+  rw [firstSibling_eq, Spec.first]
+  exact headIs_eq_pos _ self
+
+/-- `is_last_sibling(any_kind=)`: needs distinct ids only. -/
+theorem isLast_eq (root self : T) (anyKind : Bool)
+    (hnd : ((siblingsAll root self).map T.id).Nodup) :
+    Typed.isLastSibling root self anyKind = Spec.isLast (siblingsAll root self) self anyKind := by
+  unfold Typed.isLastSibling Spec.isLast
+  rw [lastSibling_eq, Spec.last]
+  refine lastIs_eq_pos _ self ?_
+  rw [sibList_eq_filter]
+  exact nodup_filter_ids _ hnd
+
+/-- `iter_by_type(kind)`: the pre-order node list filtered by kind. -/
+theorem iterByType_eq (root : T) (k : Option String) : iterByType root k = Spec.iterByType root k := by
+  cases k <;> simp [iterByType, Spec.iterByType, Spec.byKind, iterPre_flat]
+
+/-- `any_kind=True` gives exactly the untyped accessors of `Node` (Model/Rel). -/
+theorem anyKind_untyped (root self : T) :
+    Typed.getSiblings root self false true = Nutree.getSiblings root self false ∧
+    Typed.getSiblings root self true true = Nutree.getSiblings root self true ∧
+    Typed.firstSibling root self true = Nutree.firstSibling root self ∧
+    Typed.lastSibling root self true = Nutree.lastSibling root self ∧
+    Typed.getIndex root self true = Nutree.getIndex root self ∧
+    Typed.isFirstSibling root self true = Nutree.isFirstSibling root self ∧
+    Typed.isLastSibling root self true = Nutree.isLastSibling root self :=
+  ⟨rfl, rfl, rfl, rfl, rfl, rfl, rfl⟩
+
+/-- `prev_sibling(any_kind=True)` is the untyped `prev_sibling` (no hypotheses needed). -/
+theorem anyKind_prev (root self : T) :
+    Typed.prevSibling root self true = Nutree.prevSibling root self :=
+  prev_anyKind_untyped root self
+
+/-- `next_sibling(any_kind=True)` is the untyped `next_sibling` when ids are pairwise distinct
+(the untyped version first tests `is_last_sibling`, which is fooled by a duplicate id). -/
+theorem anyKind_next (root self : T) (hnd : ((siblingsAll root self).map T.id).Nodup) :
+    Typed.nextSibling root self true = Nutree.nextSibling root self :=
+  next_anyKind_untyped root self hnd
+
+/-- Only `hnd` is needed (`hmem` of the original statement is superfluous). -/
+theorem anyKind_prev_next (root self : T) (hnd : ((siblingsAll root self).map T.id).Nodup) :
+    Typed.prevSibling root self true = Nutree.prevSibling root self ∧
+    Typed.nextSibling root self true = Nutree.nextSibling root self :=
+  ⟨anyKind_prev root self, anyKind_next root self hnd⟩
+
+/-! ### Non-vacuity and necessity of the hypotheses (concrete trees) -/
+section Examples
+
+private def atom (n : Nat) : Atom :=
+  { obj := n, eqc := n, hid := .int n, truthy := true, isStr := false, name := "n" }
+private def leaf (i : Nat) (k : String) : T :=
+  .node { id := i, data := atom i, did := .int i, kind := some k } []
+
+private def a1 := leaf 1 "A"
+private def b2 := leaf 2 "B"
+private def a3 := leaf 3 "A"
+private def b4 := leaf 4 "B"
+private def a5 := leaf 5 "A"
+/-- five siblings of two kinds below the system root. -/
+private def r5 := mkRoot [a1, b2, a3, b4, a5]
+
+/-- Non-vacuity: `hmem` and `hnd` hold for `a3` in a sibling list of 5 nodes of 2 kinds, and the
+queries return the expected nodes. -/
+example :
+    siblingsAll r5 a3 = [a1, b2, a3, b4, a5] ∧
+    a3 ∈ siblingsAll r5 a3 ∧ ((siblingsAll r5 a3).map T.id).Nodup ∧
+    Typed.prevSibling r5 a3 false = some a1 ∧ Typed.nextSibling r5 a3 false = some a5 ∧
+    Typed.prevSibling r5 a3 true = some b2 ∧ Typed.nextSibling r5 a3 true = some b4 ∧
+    Typed.getIndex r5 a3 false = some 1 ∧ Typed.getIndex r5 a3 true = some 2 ∧
+    Typed.isFirstSibling r5 a3 false = false ∧ Typed.isLastSibling r5 a5 false = true := by
+  decide
+
+example : Typed.prevSibling r5 a3 false = Spec.prev (siblingsAll r5 a3) a3 false :=
+  prev_eq r5 a3 false (by decide) (by decide)
+
+/-- `hmem` is necessary for `prev_eq`/`next_eq` (`any_kind=False`): a node value with id 3 but
+kind "B" (the tree's node 3 has kind "A") is not a member of the sibling list. -/
+example :
+    let s := leaf 3 "B"
+    s ∉ siblingsAll r5 s ∧ ((siblingsAll r5 s).map T.id).Nodup ∧
+    Typed.prevSibling r5 s false = some b2 ∧ Spec.prev (siblingsAll r5 s) s false = none ∧
+    Typed.nextSibling r5 s false = some b4 ∧ Spec.next (siblingsAll r5 s) s false = none := by
+  decide
+
+/-- a sibling list with a duplicated id: `[x(1,"A"), b(2,"B"), s(1,"B")]`. -/
+private def rDup := mkRoot [leaf 1 "A", leaf 2 "B", leaf 1 "B"]
+
+/-- `hnd` is necessary for `prev_eq` (`any_kind=False`). -/
+example :
+    let s := leaf 1 "B"
+    s ∈ siblingsAll rDup s ∧
+    Typed.prevSibling rDup s false = none ∧
+    Spec.prev (siblingsAll rDup s) s false = some (leaf 2 "B") := by
+  decide
+
+/-- `[s(1,"A"), x(1,"A")]`: `hnd` is necessary for `isLast_eq` and for `anyKind_next`. -/
+private def rDup2 := mkRoot [leaf 1 "A", .node { id := 1, data := atom 7, did := .int 7, kind := some "A" } []]
+
+example :
+    let s := leaf 1 "A"
+    s ∈ siblingsAll rDup2 s ∧
+    Typed.isLastSibling rDup2 s false = true ∧ Spec.isLast (siblingsAll rDup2 s) s false = false ∧
+    Typed.isLastSibling rDup2 s true = true ∧ Spec.isLast (siblingsAll rDup2 s) s true = false ∧
+    (Typed.nextSibling rDup2 s true).isSome = true ∧ Nutree.nextSibling rDup2 s = none := by
+  decide
+
+end Examples
 
 end Nutree.C15
